@@ -2065,3 +2065,39 @@ def r_scalar_dim_bipartite(ctx, f: FunctionInfo, rule="R-KIND", chain=None):
     elif sites:
         ctx.ob(rule, f, key, True, f"{sites} re-binding(s) of `dim` in scalar branches, all pairs", chain=chain)
     return sites
+
+
+# ---------------------------------------------------------------------------------------------
+def r_default_dim_table(ctx, f: FunctionInfo, rule="R-KIND", chain=None):
+    """`dim` omitted: two subsystems of equal size.  Written as a two-row table it is [[sqrt(rows), sqrt(rows)], [sqrt(cols), sqrt(cols)]]:
+    the first ROW holds the row dimensions of both subsystems, the second the column dimensions.  Any other arrangement of the two
+    square roots describes a different factorisation as soon as the operand is rectangular."""
+    from .norm import Normalizer as _N
+    N = _N(ctx.model, f, inline=False)
+    n_sites = 0
+    for n in walk_no_nested(f.node):
+        if not (isinstance(n, ast.If) and unparse(n.test).replace(" ", "") in ("dimisNone", "Noneisdim")):
+            continue
+        for st in n.body:
+            if not (isinstance(st, ast.Assign) and isinstance(st.targets[0], ast.Name) and st.targets[0].id == "dim"):
+                continue
+            t = N(st.value)
+            if not (t[0] == "call" and t[1] == "numpy.array" and t[2] and t[2][0][0] == "list" and len(t[2][0]) == 3 and all(r[0] == "list" and len(r) == 3 for r in t[2][0][1:])):
+                continue
+            rows = [tuple(r[1:]) for r in t[2][0][1:]]
+            names = {x[1][1] for r in rows for x in r if x[0] == "sub" and x[1][0] == "n" and x[2][0] == "c"}
+            if len(names) != 1 or not all(x[0] == "sub" and x[2][0] == "c" for r in rows for x in r):
+                continue
+            rd = next(iter(names))
+            # rd must be the rounded square roots of the operand's (rows, cols)
+            dfs = [d for d in walk_no_nested(f.node) if isinstance(d, ast.Assign) and isinstance(d.targets[0], ast.Name) and d.targets[0].id == rd]
+            if not (dfs and "sqrt" in unparse(dfs[-1].value)):
+                continue
+            n_sites += 1
+            R0, R1 = ("sub", ("n", rd), ("c", 0)), ("sub", ("n", rd), ("c", 1))
+            ok = rows == [(R0, R0), (R1, R1)]
+            ctx.ob(rule, f, "omitted dim: rows split as (sqrt r, sqrt r), columns as (sqrt c, sqrt c)", ok,
+                   "[[sqrt(rows), sqrt(rows)], [sqrt(cols), sqrt(cols)]]" if ok else
+                   f"default table `{unparse(st.value)[:80]}`: the first row must hold the two row dimensions (both sqrt(#rows)) and the second the two column dimensions; "
+                   "for a rectangular operand this table has the wrong products", st, chain=chain)
+    return n_sites
